@@ -183,7 +183,9 @@ class CWMH(ProposalBasedSampler):
 
             # accept/reject
             u_theta = np.log(np.random.rand())
-            if (u_theta <= alpha):
+            if (u_theta <= alpha) and \
+               (not np.isnan(target_eval_star)) and \
+               (not np.isinf(target_eval_star)):
                 x_t[j] = x_i_star[j]
                 target_eval_t = target_eval_star
                 acc[j] = 1
